@@ -1,4 +1,5 @@
 import argparse
+import tokenize
 
 import oneliner
 import oneliner.config
@@ -76,7 +77,9 @@ if args.unparser is not None:
     )
     cfg.unparser = args.unparser
 
-with open(args.input_filename, "r", encoding="utf8") as infile:
+# decode the file like Python does (UTF-8 by default, honouring a BOM
+# and a PEP 263 coding line)
+with tokenize.open(args.input_filename) as infile:
     script = infile.read()
 
 converted = oneliner.convert_code_string(script, configs=cfg)
